@@ -27,3 +27,32 @@ CHECKS["C02"] = dict(
     assumptions=["loopback only: no loss or reordering below TCP", "interleavings are those the kernel and scheduler produce under generated pacing"],
     units=[unit("props", ["Relay"], "C02")],
 )
+
+_UDP_GEN = ("rapid-generated datagram histories through the real PacketHandler on a real dual-stack UDP socket: 1..7 client sockets on 127.x.y.z/::1 "
+            "(shared IPs, distinct ports), 1..4 scripted targets on IPv4 and IPv6 loopback, key lists with all ciphers and duplicated material; operations: "
+            "send (valid / truncated / bit-flipped / random / bad address type / short address; any key of the universe), reply from a contacted target, "
+            "datagram from a never-contacted sender, expiry. Every operation's effect is awaited (fence datagram for must-not-happen) before the next. ")
+
+CHECKS["C03"] = dict(
+    level="exploration",
+    rule=_UDP_GEN + "Non-trivial = an association opened by a key that is not first in a list of >=2 keys, or an invalid datagram on a live association, "
+         "or an IPv6 target/sender, or a reply from a never-contacted sender, or payload >=1472 bytes. Distinct = canonical case JSON.",
+    assumptions=["loopback UDP: no loss/reordering in practice; a lost expected datagram is retried once before it counts", "AEAD strength assumed"],
+    units=[unit("props", ["UDP"], "C03")],
+)
+CHECKS["C04"] = dict(
+    level="exploration",
+    rule=_UDP_GEN + "Two tests: long NAT timeout (exact model) and 120-350 ms timeouts with expire operations (guard band of 0.4 x timeout keeps operations "
+         "away from the ambiguous instant). Non-trivial = at the end >=2 live associations share a client IP or a key and at least one reply was relayed. "
+         "Distinct = canonical case JSON.",
+    assumptions=["source-address comparison across an expiry is not asserted (a new association may legitimately reuse a port)"],
+    units=[unit("props", ["NAT", "NATExpiry"], "C04")],
+)
+CHECKS["C16"] = dict(
+    level="exploration",
+    rule=_UDP_GEN + "After the history the listener is shut down and the recorded UDPMetrics/UDPConnMetrics call log is compared, per association and in order, "
+         "with the sizes and outcomes observed at the client and target sockets. Non-trivial = an association with >=2 client datagrams or >=1 reply. "
+         "Distinct = canonical case JSON.",
+    assumptions=["interleaving between client-datagram and reply reports of one association is not asserted (two goroutines)"],
+    units=[unit("props", ["Metrics", "MetricsExpiry"], "C16")],
+)
